@@ -68,8 +68,9 @@ class Gen:
                 if self.W * self.H <= maxarea:
                     break
         self.fmt = rng.choice(FMTS)
-        self.cl = {}          # id -> dict(tw, th, synced, dirty, nfs)
+        self.cl = {}          # id -> dict(tw, th, synced, dirty, nfs, mask)
         self.next_id = 0
+        self.defer = 0
         self.flags = set()
         self.dist = {}
 
@@ -83,7 +84,7 @@ class Gen:
         self.next_id += 1
         nfs = 1 if self.rng.random() < 0.25 else 0
         self.emit("client %d %d" % (i, nfs))
-        self.cl[i] = dict(tw=self.W, th=self.H, synced=False, dirty=True, nfs=nfs)
+        self.cl[i] = dict(tw=self.W, th=self.H, synced=False, dirty=True, nfs=nfs, mask=0)
         return i
 
     def factor(self):
@@ -170,6 +171,63 @@ class Gen:
         for c in self.cl.values():
             c["dirty"] = True
 
+    def ptr1(self, i, mask):
+        rng, c = self.rng, self.cl[i]
+        tw, th = c["tw"], c["th"]
+        x = rng.choice([0, tw - 1, rng.randrange(tw), rng.randrange(tw), tw, 65535])
+        y = rng.choice([0, th - 1, rng.randrange(th), rng.randrange(th), th])
+        self.emit("ptr %d %d %d %d" % (i, x, y, mask))
+        c["mask"] = mask
+
+    def pointer(self, i):
+        """pointer traffic of client i: single events, drags (moves with unchanged mask, then a button
+        change), timer flushes, switching motion coalescing on and off"""
+        rng, c = self.rng, self.cl[i]
+        k = rng.random()
+        if k < 0.2:
+            self.defer = 0 if self.defer else 100000
+            self.emit("defer %d" % self.defer)
+        if k < 0.5:
+            self.ptr1(i, c["mask"] if rng.random() < 0.6 else rng.choice([0, 1, 4]))
+        else:
+            m = rng.choice([0, 1, 2])
+            self.ptr1(i, m)
+            for _ in range(rng.randint(1, 3)):
+                self.ptr1(i, m)
+            if rng.random() < 0.5:
+                self.ptr1(i, rng.choice([0, 1, 3]))
+            else:
+                self.emit("ptrflush")
+        if rng.random() < 0.3 and c["mask"]:
+            self.ptr1(i, 0)      # release, so that other clients get the pointer again
+
+    def mark_overshoot(self):
+        """rfbMarkRectAsModified with a rectangle hanging over an edge / inverted / outside, then
+        every client re-requests everything and is compared with the reference"""
+        rng, W, H = self.rng, self.W, self.H
+        k = rng.randrange(7)
+        a, b = rng.randint(1, 9), rng.randint(1, 9)
+        y1 = rng.randrange(H); y2 = min(H, y1 + rng.randint(1, 8))
+        x1 = rng.randrange(W); x2 = min(W, x1 + rng.randint(1, 8))
+        if k == 0:
+            r = (-a, y1, min(W, b), y2)               # over the left edge
+        elif k == 1:
+            r = (x1, -a, x2, min(H, b))               # over the top edge
+        elif k == 2:
+            r = (max(0, W - b), y1, W + a, y2)        # over the right edge
+        elif k == 3:
+            r = (x1, max(0, H - b), x2, H + a)        # over the bottom edge
+        elif k == 4:
+            r = (min(W, b), y2, -a, y1)               # inverted corners, over the left edge
+        elif k == 5:
+            r = (-a, -b, W + a, H + b)                # everything and more
+        else:
+            r = rng.choice([(-a, y1, 0, y2), (W, y1, W + a, y2), (x1, H, x2, H + b), (x1, y1, x1, y2)])  # empty
+        self.emit("mark %d %d %d %d" % r)
+        for j in sorted(self.cl):
+            self.full_req(j, 0)
+            self.pic(j)
+
     def step(self):
         rng = self.rng
         ids = sorted(self.cl)
@@ -205,11 +263,10 @@ class Gen:
                 self.emit("req %d %d %d %d %d %d" % (i, rng.randint(0, 1), x, y, w, h))
         elif r < 0.62:
             self.pic(i)
+        elif r < 0.70:
+            self.pointer(i)
         elif r < 0.74:
-            tw, th = c["tw"], c["th"]
-            x = rng.choice([0, tw - 1, rng.randrange(tw), rng.randrange(tw), tw, 65535])
-            y = rng.choice([0, th - 1, rng.randrange(th), rng.randrange(th), th])
-            self.emit("ptr %d %d %d" % (i, x, y))
+            self.mark_overshoot()
         elif r < 0.82:
             if len(ids) < 3 and self.next_id < 8:
                 j = self.join()
@@ -292,6 +349,7 @@ def oracle(script, impl):
     W = H = None
     dims = {}       # live client -> dims of its scaled screen as told / implied by the protocol
     nfs_wait = {}   # nfs clients whose size announcement is still to come
+    defer, owner, lastmask, pend = 0, None, {}, {}   # pointer delivery: defer time, grabbing client, coalesced
     for (op, sure), ob in zip(ops, impl):
         t = op.split()
         if "ORACLE" in ob:
@@ -304,6 +362,10 @@ def oracle(script, impl):
             dims[int(t[1])] = (W, H)
         elif t[0] == "leave":
             dims.pop(int(t[1]), None)
+            pend.pop(int(t[1]), None)
+            lastmask.pop(int(t[1]), None)
+            if owner == int(t[1]):
+                owner = None
         elif t[0] == "scale":
             i, n = int(t[1]), int(t[3])
             o = ob.split()
@@ -311,6 +373,10 @@ def oracle(script, impl):
                 if o[0] != "closed":
                     return "scale factor 0 accepted: %s -> %s" % (op, ob)
                 dims.pop(i, None)
+                pend.pop(i, None)
+                lastmask.pop(i, None)
+                if owner == i:
+                    owner = None
                 continue
             if o[0] == "closed":
                 return "client closed by a non-zero factor: %s -> %s" % (op, ob)
@@ -365,22 +431,80 @@ def oracle(script, impl):
                 return "client %d uses %dx%d, expected %r" % (i, w, h, dims[i])
             if (w, h) == (W, H) and "self" not in ob:
                 return "factor 1 does not use the screen itself: " + ob
+        elif t[0] == "defer":
+            o = ob.split()
+            if int(t[1]) == 0:
+                e = check_flush(o[2:], pend, lastmask, W, H)
+                if e:
+                    return "%s: %s -> %s" % (e, op, ob)
+            defer = int(t[1])
+        elif t[0] == "ptrflush":
+            e = check_flush(ob.split()[1:], pend, lastmask, W, H)
+            if e:
+                return "%s: %s -> %s" % (e, op, ob)
         elif t[0] == "ptr":
             o = ob.split()
             i = int(t[1])
-            if o[2].startswith("none") or i not in dims:
-                return "pointer event lost: %s -> %s" % (op, ob)
+            if i not in dims:
+                continue
             x, y = int(t[2]) % 65536, int(t[3]) % 65536
-            mx, my = int(o[2]), int(o[3])
-            tw, th = dims[i]
-            if (tw, th) == (W, H):
-                if (mx, my) != (x, y):
-                    return "unscaled pointer altered: %s -> %s" % (op, ob)
+            mask = int(t[4]) % 256 if len(t) > 4 else 0
+            evs = [tuple(int(v) for v in e.split("@")[0].split(",")) for e in o[3:]]
+            if any("@" in e for e in o[3:]):
+                return "pointer event attributed to another client: %s -> %s" % (op, ob)
+            if owner is not None and owner != i:
+                continue                                    # another client holds the pointer (C06)
+            owner = i if mask else None
+            if mask != lastmask.get(i, 0) or defer == 0:
+                want = []
+                if pend.get(i):
+                    want.append((lastmask.get(i, 0),) + pend[i])
+                want.append((mask, x, y, dims[i]))
+                pend[i] = None
+                if len(evs) != len(want):
+                    return "pointer event lost or duplicated (%d delivered, %d expected): %s -> %s" % (len(evs), len(want), op, ob)
+                for (m, mx, my), (wm, wx, wy, wd) in zip(evs, want):
+                    if m != wm or not mapped_ok(mx, my, wx, wy, wd, W, H):
+                        return "pointer not mapped back into its source block (client %d,%d on %dx%d of %dx%d, mask %d): %s -> %s" % (wx, wy, wd[0], wd[1], W, H, wm, op, ob)
             else:
-                # the mapped-back pixel must overlap the source interval shown by client pixel x
-                if not ((mx + 1) * tw > x * W and mx * tw < (x + 1) * W and
-                        (my + 1) * th > y * H and my * th < (y + 1) * H):
-                    return "pointer not mapped back into its source block: %s -> %s (scaled %dx%d of %dx%d)" % (op, ob, tw, th, W, H)
+                pend[i] = (x, y, dims[i])                   # coalesced: delivered later
+                for (m, mx, my) in evs:                     # (if delivered now it must still be right)
+                    if not mapped_ok(mx, my, x, y, dims[i], W, H):
+                        return "pointer not mapped back into its source block: %s -> %s" % (op, ob)
+                    pend[i] = None
+            lastmask[i] = mask
+    return None
+
+
+def mapped_ok(mx, my, x, y, d, W, H):
+    """the delivered pixel must overlap the source interval shown by client pixel (x,y)"""
+    tw, th = d
+    if (tw, th) == (W, H):
+        return (mx, my) == (x, y)
+    return ((mx + 1) * tw > x * W and mx * tw < (x + 1) * W and
+            (my + 1) * th > y * H and my * th < (y + 1) * H)
+
+
+def check_flush(toks, pend, lastmask, W, H):
+    """timer flush: exactly the coalesced positions, each mapped back with the scale it was sent at"""
+    got = {}
+    for e in toks[1:]:
+        cid, rest = e.split(":")
+        got[int(cid)] = tuple(int(v) for v in rest.split(","))
+    for i, p in list(pend.items()):
+        if not p:
+            continue
+        if i not in got:
+            return "coalesced pointer position of client %d lost" % i
+        m, mx, my = got.pop(i)
+        if m != lastmask.get(i, 0) or not mapped_ok(mx, my, p[0], p[1], p[2], W, H):
+            return "coalesced pointer position of client %d (%d,%d on %dx%d) not mapped back" % (i, p[0], p[1], p[2][0], p[2][1])
+        pend[i] = None
+    if got:
+        return "pointer position delivered that no client sent: %r" % got
+    return None
+
+
     return None
 
 
